@@ -1,16 +1,17 @@
 #!/bin/bash
-# seed_setup.sh <ID>...: a scratch worktree per property under /tmp/wt, without the verification contract files,
-# plus the property text, for a sub-agent that is to seed a property-breaking change
+# seed_setup.sh <ID>...: a scratch worktree per property under $WT (default /tmp/wt), without the verification
+# contract files, plus the property text, for a sub-agent that is to seed a property-breaking change
 set -e
-mkdir -p /tmp/wt
+export WT=${WT:-/tmp/wt}
+mkdir -p $WT
 for ID in "$@"; do
-  git -C /repo worktree add -q --detach /tmp/wt/$ID HEAD
-  (cd /tmp/wt/$ID && git rm -q $(git ls-files | grep zz_contracts_verif.go) && git -c user.name=scratch -c user.email=s@x commit -qm "scratch: no contract files")
+  [ -d $WT/$ID ] || git -C /repo worktree add -q --detach $WT/$ID HEAD
+  (cd $WT/$ID && if git ls-files | grep -q zz_contracts_verif.go; then git rm -q $(git ls-files | grep zz_contracts_verif.go) && git -c user.name=scratch -c user.email=s@x commit -qm "scratch: no contract files"; fi)
   python3 - "$ID" <<'PY'
-import json,sys
+import json,sys,os
 for l in open('/verif/properties.jsonl'):
     d=json.loads(l)
     if d['id']==sys.argv[1]:
-        open('/tmp/wt/%s.prop.txt'%d['id'],'w').write(d['title']+': '+d['statement']+'\nFiles: '+', '.join(d['anchors']['files'])+'\n')
+        open('%s/%s.prop.txt'%(os.environ['WT'],d['id']),'w').write(d['title']+': '+d['statement']+'\nFiles: '+', '.join(d['anchors']['files'])+'\n')
 PY
 done
